@@ -66,6 +66,11 @@ def family(tier):
     for kt in ("identifier", "ipaddr-or-hostname"):
         for lab, items in M.selections(1):
             fam.append((lab, items, 1, kt, {}, 3))
+    # abstract slots whose implementers carry DIFFERENT section datatypes (each member through ITS datatype)
+    for lab, items in M.selections(1, full=True):
+        if items and isinstance(items[0], M.Sect) and items[0].type == "a":
+            for p in (0, 1):
+                fam.append((lab, items, p, None, {"nimpl": 3, "impl_dt": True}, 4 if p == 0 else 3))
     # derived containers whose key type differs from the base's (both directions, and back again)
     for wl in ("pluskey-string-defaults", "plusmultikey-string-defaults", "pluskey-integer-defaults"):
         for base_kt, cut_kt in ((None, "identifier"), ("identifier", None), ("identifier", "basic-key"),
